@@ -492,7 +492,9 @@ theorem enode_step (f : Nat) (hn : ENode A B f) (hf : EFields A B f) (he : EElem
         · rename_i ps
           split at h
           · rename_i hch
-            rw [if_pos hch]
+            have hch' : 0 < changed ∧ changed < 2 ^ 63 ∧ (Forward.mmapPairs pa).length ≤ 62 :=
+              ⟨hch.1, hch.2.1, by rw [Forward.pairRel_length hold]; exact hch.2.2⟩
+            rw [if_pos hch']
             split at h
             · simp at h
             · rename_i e2 ds2 effp hvals
